@@ -173,8 +173,14 @@ func runC19(r *Run) {
 					switch it.target {
 					case 1:
 						it.doc = []byte(`"a string"`)
-						if t.Draw(2) == 1 {
+						switch t.Draw(4) {
+						case 1:
 							it.doc = []byte(`{"name":"x","n":"not a number"}`)
+						case 2:
+							// (the decoder's error text for these is longer than a Close reason may be)
+							it.doc = []byte(`{"name":"x","n":` + strings.Repeat("1234567890", 12) + `}`)
+						case 3:
+							it.doc = []byte(`{"name":"x","n":1,"tags":["a","b",{"an object where a string belongs":"` + strings.Repeat("long ", 30) + `"}]}`)
 						}
 					case 3:
 						it.doc = []byte(`"!!! not base64 !!!"`)
